@@ -151,6 +151,64 @@ R.contract(
     bounded_note="one parameter, up to 2 entries in each examples list",
 )
 
+
+# ------------------------------------------------------------------------------------------------- the fill-in: parameters that HAVE an example are not generated again
+# (get_parameters_value merges `explicit example values` with `generated values for the other parameters`: `copied.update(new)` - an explicit value survives
+#  only if the fill-in strategy does not generate its parameter again; that is decided by the exclusion loop of get_parameters_strategy)
+import itertools as _it
+
+HY = "schemathesis.specs.openapi._hypothesis:"
+_NAMES = ("a", "b", "c")
+_ORDERED_SUBSETS = [tuple(p) for k in (0, 1, 2, 3) for p in _it.permutations(_NAMES, k)]
+
+
+class _LocationSchema(D):
+    """{"type": "object", "properties": {<any subset of a, b, c>}, "required": [<any ordered subset of those properties>], "additionalProperties": False}"""
+
+    def make(self, it, name, idx=()):
+        present = [n for n in _NAMES if it.path.choose([(False, True), (True, True)], f"declared:{n}")]
+        req_opts = [list(p) for k in range(len(present) + 1) for p in _it.permutations(present, k)]
+        required = req_opts[it.path.choose([(i, True) for i in range(len(req_opts))], "required")]
+        it.path.bounded_inputs.add("location schemas over the parameters a, b, c (every subset declared, every ordered subset required)")
+        return {"type": "object", "properties": {n: {} for n in present}, "required": list(required), "additionalProperties": False}
+
+
+R.contract(HY + "get_schema_for_location", args={"operation": Opq("Any"), "location": Opq("Any"), "parameters": Opq("Any")}, returns=_LocationSchema(), trusted=True,
+           effects={"declared": "sorted(result['properties'])", "required0": "list(result['required'])"}, note="C01 contracts: the JSON Schema of one location (fresh dictionary)")
+R.contract("spec:strategy_factory", args={"schema": Opq("Any"), "label": Opq("Any"), "location": Opq("Any"), "media_type": Opq("Any"), "config": Opq("Any")}, returns=Obj("spec:FillInStrategy"), trusted=True,
+           effects={"asked_properties": "sorted(schema['properties'])", "asked_required": "list(schema['required'])", "asked": "ghost('asked') + 1"},
+           note="make_positive_strategy / make_negative_strategy: generates objects for the schema it is GIVEN (C01 / C02 contracts)")
+R.nominal_methods["spec:FillInStrategy"] = {"map": lambda it, obj, a, k: obj, "filter": lambda it, obj, a, k: obj}
+R.nominal_methods["spec:FillInOp"] = {"get_parameter_serializer": lambda it, obj, a, k: None}
+R.module_values[HY.rstrip(":") + ":_PARAMETER_STRATEGIES_CACHE"] = None  # replaced per path by setup (a WeakKeyDictionary: here an ordinary, initially empty dictionary)
+
+
+def _fresh_cache(it):
+    from pyvc.verify import locate
+
+    _, mod, fn = locate(it, HY + "get_parameters_strategy")
+    it.reg.module_values[HY.rstrip(":") + ":_PARAMETER_STRATEGIES_CACHE"] = {}
+    return fn, {}
+
+
+R.contract(
+    HY + "get_parameters_strategy",
+    prop="C17",
+    setup=_fresh_cache,
+    args={"operation": Obj("spec:FillInOp", query=Const(("some parameters",)), label=Str), "strategy_factory": Callable_(contract="spec:strategy_factory"), "location": Const("query"),
+          "generation_config": Opq("GenerationConfig"), "exclude": Choice(*_ORDERED_SUBSETS)},
+    ghost={"declared": None, "required0": None, "asked_properties": None, "asked_required": None, "asked": 0},
+    raises=[],
+    ensures={
+        # sent unchanged: no parameter that has an explicit (example) value is generated again - whatever its position and whether or not it is required
+        "no_excluded_parameter_is_generated_again": "ghost('asked') == 1 and all(n not in ghost('asked_properties') and n not in ghost('asked_required') for n in exclude)",
+        # the other parts are filled in as declared
+        "every_other_parameter_is_still_generated": "ghost('asked_properties') == [n for n in ghost('declared') if n not in exclude] and ghost('asked_required') == [n for n in ghost('required0') if n not in exclude]",
+    },
+    replayable=False,
+    max_paths=40000,
+)
+
 LEVEL_TEXT = ("Deductive coverage postcondition on the real combination generators for example lists up to a stated size (labelled bounded), plus the round-robin "
               "arithmetic lemma for all sizes; extraction of examples from the document is not decided here.")
 LEVEL_NOTE = "Trusted: itertools cycle/islice (E5), fill-in generation (E1/E2), pyvc semantics (E9)."
